@@ -649,7 +649,10 @@ def record_virtual_traces(worker, seed, ntraces, maxlen=40):
     import virtual as vmod
     rng = random.Random(seed)
     ops = [{"op": "length"}, {"op": "type"}, {"op": "tojson"}, {"op": "at", "i": 0}, {"op": "at", "i": -1}, {"op": "range", "a": 1, "b": 3},
-           {"op": "range_lazy", "a": 0, "b": 2}, {"op": "num", "axis": 0}, {"op": "carry"}, {"op": "validity"}, {"op": "evict"}, {"op": "evict"}]
+           {"op": "range_lazy", "a": 0, "b": 2}, {"op": "num", "axis": 0}, {"op": "carry"}, {"op": "validity"}, {"op": "evict"}, {"op": "evict"},
+           {"op": "depths"}, {"op": "slice_depths", "sk": "newaxis", "a": 0, "b": 2, "axis": 0},
+           {"op": "slice_depths", "sk": "ellipsis", "a": 0, "b": 2, "axis": 0}, {"op": "slice_depths", "sk": "range", "a": 0, "b": 2, "axis": 0},
+           {"op": "slice_sum", "sk": "newaxis", "a": 0, "b": 0, "axis": -1}, {"op": "slice_sum", "sk": "newaxis", "a": 0, "b": 0, "axis": 0}]
     wcases, plans = [], []
     for t in range(ntraces):
         mode = rng.choice(["ok", "ok", "short", "wrongform", "raises", "raise_first", "bad_first"])
